@@ -193,4 +193,95 @@ Theorem zero_byte_steps_ignore_buffer s ty buf buf' :
   st s = Some (SParse ty) -> next_state s buf = next_state s buf'.
 Proof. intro H. unfold Stream.next_state. rewrite H. reflexivity. Qed.
 
+
+(* ------------------------------------------------------------------ image data: a cut inside the compressed data of an IDAT / fdAT chunk *)
+(* The inflater is external; what the cut theorem needs from it is that output determined by a prefix of the compressed stream stays
+   determined when more input arrives (true of every inflater that does not retract output).  Stated as a hypothesis of the theorems. *)
+Definition zinf_monotone : Prop :=
+  forall c a b, snd (zinf c a) = DNeedMore -> exists t, fst (zinf c (a ++ b)) = fst (zinf c a) ++ t.
+
+(* the wrapper has handed out exactly the output determined by the input it has consumed *)
+Definition zcoh (z : zst) : Prop := z_emitted z = zlen (fst (zinf (negb (z_ignore_adler z)) (z_in z))).
+
+Lemma skipn_zlen_app {A} (a b : list A) : skipn (Z.to_nat (zlen a)) (a ++ b) = b.
+Proof. unfold zlen. rewrite Nat2Z.id. induction a as [|x a IH]; cbn [length skipn app]; [reflexivity | exact IH]. Qed.
+
+Lemma z_decompress_cut z p q z1 o1 z2 o2 :
+  zinf_monotone -> zcoh z ->
+  snd (zinf (negb (z_ignore_adler z)) (z_in z)) = DNeedMore ->
+  snd (zinf (negb (z_ignore_adler z)) (z_in z ++ p)) = DNeedMore ->
+  z_decompress zinf z p = Ok (z1, o1) -> z_decompress zinf z1 q = Ok (z2, o2) ->
+  z_decompress zinf z (p ++ q) = Ok (z2, o1 ++ o2) /\ zcoh z1 /\ zcoh z2.
+Proof.
+  intros Hm Hc H0 H1. unfold z_decompress, z_done. rewrite H0.
+  destruct (zinf (negb (z_ignore_adler z)) (z_in z ++ p)) as [out1 st1] eqn:E1. cbn [snd] in H1. subst st1.
+  intro Q1. injection Q1 as <- <-.
+  replace (z_ignore_adler (z <| z_in := z_in z ++ p |> <| z_emitted := zlen out1 |> <| z_started := true |>)) with (z_ignore_adler z) by (destruct z; reflexivity).
+  replace (z_in (z <| z_in := z_in z ++ p |> <| z_emitted := zlen out1 |> <| z_started := true |>)) with (z_in z ++ p) by (destruct z; reflexivity).
+  rewrite E1. cbn [snd].
+  rewrite <- app_assoc.
+  destruct (zinf (negb (z_ignore_adler z)) (z_in z ++ p ++ q)) as [out2 st2] eqn:E2.
+  destruct (Hm (negb (z_ignore_adler z)) (z_in z) p H0) as [t0 Ht0]. rewrite E1 in Ht0. cbn [fst] in Ht0.
+  assert (H1' : snd (zinf (negb (z_ignore_adler z)) (z_in z ++ p)) = DNeedMore) by (rewrite E1; reflexivity).
+  destruct (Hm (negb (z_ignore_adler z)) (z_in z ++ p) q H1') as [t Ht]. rewrite <- app_assoc, E1, E2 in Ht. cbn [fst] in Ht.
+  destruct st2; try discriminate; intro Q2; injection Q2 as <- <-.
+  all: replace (z_emitted (z <| z_in := z_in z ++ p |> <| z_emitted := zlen out1 |> <| z_started := true |>)) with (zlen out1) by (destruct z; reflexivity).
+  all: split; [|split].
+  all: try (unfold zcoh; destruct z; cbn in *; rewrite ?E1, ?E2; reflexivity).
+  all: f_equal; apply pair_equal_spec; split; [destruct z; reflexivity|].
+  all: unfold zcoh in Hc; rewrite Hc; rewrite Ht, Ht0; rewrite <- app_assoc; rewrite !skipn_zlen_app;
+       replace (fst (zinf (negb (z_ignore_adler z)) (z_in z)) ++ t0 ++ t) with ((fst (zinf (negb (z_ignore_adler z)) (z_in z)) ++ t0) ++ t) by (rewrite app_assoc; reflexivity);
+       rewrite skipn_zlen_app; reflexivity.
+Qed.
+
+Definition after_image (s : dstate) (ty : Z) (p : list Z) (z' : zst) : dstate :=
+  s <| infl := z' |> <| c_crc := crc_update (c_crc s) p |> <| c_remaining := c_remaining s - Z.of_nat (length p) |> <| st := Some (SImage ty) |>.
+
+Lemma simage_step s ty p z' out :
+  st s = Some (SImage ty) -> p <> [] -> zlen p < c_remaining s ->
+  z_decompress zinf (infl s) p = Ok (z', out) ->
+  next_state s p = (after_image s ty p z', Ok (length p, EImageData, out)).
+Proof.
+  intros H Hp Hr Hz.
+  unfold Stream.next_state, after_image. rewrite H. cbv zeta.
+  assert (N1 : Z.to_nat (Z.min (zlen p) (c_remaining s)) = length p) by (unfold zlen in *; lia).
+  rewrite N1, firstn_all, Hz.
+  replace (c_remaining (s <| infl := z' |> <| c_crc := crc_update (c_crc s) p |> <| c_remaining := c_remaining s - Z.of_nat (length p) |>))
+    with (c_remaining s - Z.of_nat (length p)) by (destruct s; reflexivity).
+  assert (E1 : (c_remaining s - Z.of_nat (length p) =? 0) = false) by (unfold zlen in *; lia). rewrite E1. reflexivity.
+Qed.
+
+(* THE IMAGE-DATA THEOREM: compressed image data delivered as p then q (both inside the chunk, the stream not finished after p)
+   leaves exactly the state it leaves when delivered as p ++ q, and the image bytes appended by the two calls together are the
+   bytes appended by the single call *)
+Theorem image_cut s ty p q z1 o1 z2 o2 :
+  zinf_monotone -> zcoh (infl s) ->
+  st s = Some (SImage ty) -> p <> [] -> q <> [] -> zlen (p ++ q) < c_remaining s ->
+  snd (zinf (negb (z_ignore_adler (infl s))) (z_in (infl s))) = DNeedMore ->
+  snd (zinf (negb (z_ignore_adler (infl s))) (z_in (infl s) ++ p)) = DNeedMore ->
+  z_decompress zinf (infl s) p = Ok (z1, o1) -> z_decompress zinf z1 q = Ok (z2, o2) ->
+  next_state s p = (after_image s ty p z1, Ok (length p, EImageData, o1)) /\
+  next_state (after_image s ty p z1) q = (after_image s ty (p ++ q) z2, Ok (length q, EImageData, o2)) /\
+  next_state s (p ++ q) = (after_image s ty (p ++ q) z2, Ok (length (p ++ q), EImageData, o1 ++ o2)) /\
+  zcoh z2.
+Proof.
+  intros Hm Hc H Hp Hq Hr H0 H1 Hz1 Hz2.
+  assert (Lpq : zlen (p ++ q) = zlen p + zlen q) by (unfold zlen; rewrite app_length; lia).
+  assert (Lp : 1 <= zlen p) by (unfold zlen; destruct p; [congruence | cbn [length]; lia]).
+  assert (Lq : 1 <= zlen q) by (unfold zlen; destruct q; [congruence | cbn [length]; lia]).
+  destruct (z_decompress_cut (infl s) p q z1 o1 z2 o2 Hm Hc H0 H1 Hz1 Hz2) as (Hw & Hc1 & Hc2).
+  split; [|split; [|split]].
+  - apply simage_step; try assumption; lia.
+  - assert (E : after_image s ty (p ++ q) z2 = after_image (after_image s ty p z1) ty q z2).
+    { unfold after_image. destruct s. cbn. rewrite crc_update_app, app_length.
+      replace (c_remaining - Z.of_nat (length p + length q)) with (c_remaining - Z.of_nat (length p) - Z.of_nat (length q)) by lia. reflexivity. }
+    rewrite E. apply simage_step; try assumption;
+      try (unfold after_image; destruct s; cbn in *; first [reflexivity | exact Hz2 | (unfold zlen in *; lia)]).
+  - apply simage_step; try assumption. destruct p; [congruence | discriminate].
+  - exact Hc2.
+Qed.
 End WithInflate.
+
+(* the monotonicity premise is satisfiable (a pass-through "inflater"), so image_cut is not vacuous *)
+Example zinf_monotone_satisfiable : zinf_monotone (fun (_ : bool) (a : list Z) => (a, DNeedMore)).
+Proof. intros c a b _. exists b. reflexivity. Qed.
